@@ -1024,15 +1024,59 @@ def _zero_satisfies(op, c):
     return {'<': 0 < c, '<=': 0 <= c, '>': 0 > c, '>=': 0 >= c, '==': 0 == c, '!=': 0 != c}[op]
 
 
+_CTYPE_NONZERO = ('isdigit', 'std::isdigit', 'isalpha', 'std::isalpha', 'isalnum', 'std::isalnum', 'isxdigit', 'std::isxdigit',
+                  'isupper', 'std::isupper', 'islower', 'std::islower', 'ispunct', 'std::ispunct', 'isgraph', 'std::isgraph')
+
+
+def predicate_excludes_zero(fb, g, depth=0):
+    """a one-argument predicate helper (`is_digit(char c)`) that can only return true for a non-zero argument"""
+    if g is None or not g.has_cfg or len(g.params) != 1 or depth > 2:
+        return False
+    d = g.params[0]['d']
+    if definitions(g, d):
+        return False
+
+    def classify(f, cid):
+        pc = cmp_parts(f, cid)
+        if pc is None:
+            n = f.sn(cid)
+            if n is not None and n.get('k') == 'var' and n.get('d') == d:
+                return 'T'
+            return None
+        op, l, r = pc
+        ln, rn = f.sn(l), f.sn(r)
+        if ln is not None and ln.get('k') == 'var' and ln.get('d') == d and f.const_value(r) is not None:
+            c = f.const_value(r)
+        elif rn is not None and rn.get('k') == 'var' and rn.get('d') == d and f.const_value(l) is not None:
+            c, op = f.const_value(l), _FLIP[op]
+        else:
+            return None
+        return 'F' if _zero_satisfies(op, c) else 'T'
+    rets = [n for n in g.all_nodes() if n.get('k') == 'return' and 'sub' in n]
+    if not rets:
+        return False
+    for r in rets:
+        if g.const_value(r['sub']) == 0:
+            continue
+        if not _holds(g, r['sub'], True, classify):
+            return False
+    return True
+
+
 class PrefixFlow:
-    def __init__(self, fn, base_decl):
+    def __init__(self, fn, base_decl, fb=None):
         self.fn = fn
         self.p = base_decl
+        self.fb = fb
 
     def _index_of(self, nid):
         """k if the expression is p[k] / *(p + k) / *p for the base pointer, else None"""
         fn = self.fn
         n = fn.sn(nid)
+        hops = 0
+        while n is not None and n.get('k') == 'cast' and hops < 4:     # static_cast<unsigned char>(p[k]) keeps zero / non-zero
+            n = fn.sn(n['sub'])
+            hops += 1
         if n is None:
             return None
         if n.get('k') == 'index':
@@ -1061,6 +1105,14 @@ class PrefixFlow:
                 continue
             pc = cmp_parts(fn, a)
             if pc is None:
+                n = fn.sn(a)
+                if truth and n is not None and n.get('k') == 'call' and len([x for x in n.get('args', []) if x is not None]) == 1:
+                    k = self._index_of(n['args'][0])
+                    if k is not None:
+                        q = n.get('q') or n.get('name') or ''
+                        g = (self.fb.by_usr.get(n.get('u')) or [None])[0] if (self.fb is not None and n.get('u')) else None
+                        if q in _CTYPE_NONZERO or predicate_excludes_zero(self.fb, g):
+                            out.append((k, idx))
                 continue
             op, l, r = pc
             kl, kr = self._index_of(l), self._index_of(r)
